@@ -349,7 +349,18 @@ func (g *egen) expr(d int) string {
 	case 1:
 		return "-" + g.expr(d-1)
 	case 2:
-		return "(x) => " + g.expr(d-1)
+		// anonymous functions: as values, and APPLIED - directly and through foreach - with parameter names in mixed case
+		// that the body refers to in any case (references are not case sensitive, parameters included)
+		p := g.pick("x", "X", "Item", "item", "aB")
+		ref := g.pick(p, strings.ToUpper(p), strings.ToLower(p))
+		body := g.pick(ref, ref+" & "+g.expr(d-1), g.expr(d-1)+" + "+ref, "f("+ref+")")
+		switch g.r.Intn(3) {
+		case 0:
+			return "(" + p + ") => " + body
+		case 1:
+			return "((" + p + ") => " + body + ")(" + g.expr(0) + ")"
+		}
+		return "foreach(array(" + g.expr(0) + ", " + g.expr(0) + "), (" + p + ") => " + body + ")"
 	case 3:
 		return g.atom()
 	}
